@@ -83,6 +83,12 @@ Den(w, c, J, d) ==
   IF d.kind = "reach" THEN ReachO(w, c, J, d.n, d.og)
   ELSE DiffSet(ReachO(w, c, J, d.a[1], d.a[2]), ReachO(w, c, J, d.b[1], d.b[2]))
 
+\* the same from a table T of reach sets (T[n] = Reach(J, n)); lets callers compute the walks once
+DenT(w, c, T, d) ==
+  LET O(og) == IF og THEN Zeros(w, c) ELSE {} IN
+  IF d.kind = "reach" THEN T[d.n] \cup O(d.og)
+  ELSE DiffSet(T[d.a[1]] \cup O(d.a[2]), T[d.b[1]] \cup O(d.b[2]))
+
 \* the sum of two star sets as sets of states (origin states handled by the caller)
 AddSets(S1, S2) == NonZero(S1 \cup S2 \cup Sum(S1, S2))
 
